@@ -495,7 +495,9 @@ func (fc *FnCtx) unsafeCast(st *State, p Term, from, to types.Type) Term {
 	if ts, ok := isStruct(to); ok && ts.NumFields() > 0 && sameNamed(ts.Field(0).Type(), from) {
 		// *header -> *leaf : the header is field 0 of the target
 		fid := fc.w.fieldIDT(to, 0)
-		fc.assume(st, mk(fmt.Sprintf("(or (is_PNull %s) (and (is_PField %s) (= (pf_fid %s) %d)))", p.S, p.S, p.S, fid), SBool, nil))
+		if st != nil {
+			fc.assume(st, mk(fmt.Sprintf("(or (is_PNull %s) (and (is_PField %s) (= (pf_fid %s) %d)))", p.S, p.S, p.S, fid), SBool, nil))
+		}
 		fc.note("unsafe cast *" + shortTypeString(from) + " -> *" + shortTypeString(to) + " assumes the pointer addresses field 0 of the target type")
 		return mk(fmt.Sprintf("(ite (is_PNull %s) PNull (pf_base %s))", p.S, p.S), SPtr, nil)
 	}
